@@ -8,6 +8,7 @@ code itself (no access outside an object, no use of freed or uninitialised stora
 builds and guard words on the presented lines, not proved — see tools/props/c08.py.
 -/
 import RelicVerif.Lemmas.Bounds
+import RelicVerif.Model.ParamSel
 
 namespace Relic.Props.C08
 open Relic.Model Relic.Model.Rec Relic.Lemmas.Bounds
@@ -30,5 +31,43 @@ theorem recodings_fit (cap k n w : Nat) (hw : 0 < w) (ds : List Int) :
 /-- joint sparse form: both rows together fit the caller's buffer (the defect repaired by 800d2e7 made this false) -/
 theorem jsf_fits (cap k l : Nat) (a0 a1 : List Int) (h : recJsf cap k l = some (a0, a1)) : a0.length + a1.length ≤ cap :=
   (recJsf_fits_both cap k l a0 a1 h).1
+
+/-! ### "an unsupported parameter is reported through the error mechanism" -/
+open Relic.Model.Param in
+/-- an identifier without an entry in the compiled-in field table is reported and leaves the installed field as it was -/
+theorem unsupported_field_reported (fs : List FieldParam) (st : FieldSel) (id : Nat) (h : ∀ f ∈ fs, f.id ≠ id) :
+    selectField fs st id = (st, false) := by
+  unfold selectField
+  have : fs.find? (·.id == id) = none := by
+    rw [List.find?_eq_none]; intro f hf; simpa using h f hf
+  rw [this]
+
+open Relic.Model.Param in
+/-- an accepted identifier is the one the getter reports afterwards, together with the prime of *its* table entry -/
+theorem supported_field_selected (fs : List FieldParam) (st st' : FieldSel) (id : Nat) (h : selectField fs st id = (st', true)) :
+    st'.id = id ∧ ∃ f ∈ fs, f.id = id ∧ st'.prime = f.prime := by
+  unfold selectField at h
+  split at h
+  · next f hf =>
+    have hm := List.mem_of_find?_eq_some hf
+    have hp := List.find?_some hf
+    simp only [Prod.mk.injEq, and_true] at h
+    subst h
+    exact ⟨rfl, f, hm, by simpa using hp, rfl⟩
+  · simp at h
+
+open Relic.Model.Param in
+/-- the same for curves: no table entry → reported, nothing installed -/
+theorem unsupported_curve_reported (fs : List FieldParam) (cs : List CurveParam) (st : CurveSel) (id : Nat)
+    (h : ∀ c ∈ cs, c.id ≠ id) : selectCurve fs cs st id = (st, false) := by
+  unfold selectCurve
+  have : cs.find? (·.id == id) = none := by
+    rw [List.find?_eq_none]; intro c hc; simpa using h c hc
+  rw [this]
+
+/-- premises satisfiable: a one-entry table rejects every other identifier and accepts its own -/
+example : Relic.Model.Param.selectField [{ name := "X", id := 7, kind := .literal 13, sps := [] }] ⟨7, 13⟩ 8 = (⟨7, 13⟩, false) ∧
+    Relic.Model.Param.selectField [{ name := "X", id := 7, kind := .literal 13, sps := [] }] ⟨0, 0⟩ 7 = (⟨7, 13⟩, true) := by
+  constructor <;> rfl
 
 end Relic.Props.C08
